@@ -84,6 +84,9 @@ func init() {
 				add("s70000", 0, map[string]int{"size": 70000})
 				add("s5000-pings", 1, map[string]int{"size": 5000, "pings": 1})
 				add("s16-reconnect", 1, map[string]int{"size": 16, "reconnect": 1})
+				// a peer that also sends frames the library must ignore or refuse (not JSON, bad id
+				// type): whatever the library does about them must respect the write discipline
+				add("s5000-garbage", 1, map[string]int{"size": 5000, "garbage": 1})
 				return ps
 			}
 			add("s16", 2, map[string]int{"size": 16})
@@ -93,6 +96,8 @@ func init() {
 			add("s16-pings", 2, map[string]int{"size": 16, "pings": 1})
 			add("s16-reconnect", 2, map[string]int{"size": 16, "reconnect": 1})
 			add("s5000-reconnect-pings", 1, map[string]int{"size": 5000, "reconnect": 1, "pings": 1})
+			add("s5000-garbage", 2, map[string]int{"size": 5000, "garbage": 1})
+			add("s70000-garbage", 1, map[string]int{"size": 70000, "garbage": 1})
 			return ps
 		},
 		Body: writersBody,
@@ -195,6 +200,16 @@ func writersBody(s *vsched.Sched, p Param) {
 	if p.I("reconnect") == 1 {
 		s.Go("zcut", func() { w.Net.Link(0).Sever(vnet.FIN) })
 	}
+	if p.I("garbage") == 1 {
+		// malformed frames in both directions, placed anywhere by one deviation each
+		s.Go("zgarbage-c2s", func() {
+			w.Net.Link(0).Inject(vnet.C2S, vnet.TextFrame([]byte(`{"jsonrpc":"2.0","id":{"x":1},"method":"T.Echo","params":[1]}`), true))
+			w.Net.Link(0).Inject(vnet.C2S, vnet.TextFrame([]byte(`{not json`), true))
+		})
+		// (server->client garbage is not injected here: the server writes multi-frame messages
+		// and an injection between two of its frames would itself be the interleaving; hostile
+		// frames towards a client are C10's target B)
+	}
 	s.Go("zzcloser", func() {
 		if p.I("pings") == 1 {
 			s.Env("close-go") // let a few ping rounds happen first
@@ -205,6 +220,12 @@ func writersBody(s *vsched.Sched, p Param) {
 }
 
 // checkWireIntegrity: C14's oracle over every link and both directions.
+// payloads the scenarios inject as a misbehaving peer
+var injected = map[string]bool{
+	`{"jsonrpc":"2.0","id":{"x":1},"method":"T.Echo","params":[1]}`: true,
+	`{not json`: true,
+}
+
 func checkWireIntegrity(s *vsched.Sched, w *World) {
 	for li := 0; li < w.Net.LinkCount(); li++ {
 		lk := w.Net.Link(li)
@@ -219,6 +240,9 @@ func checkWireIntegrity(s *vsched.Sched, w *World) {
 				s.Violate("C14: link %d %s: the byte stream ends inside a message although the link was never cut", li, d)
 			}
 			for _, m := range st.Data() {
+				if injected[string(m.Payload)] {
+					continue // put on the wire by the scenario's misbehaving peer, not by the library
+				}
 				var f map[string]json.RawMessage
 				if err := json.Unmarshal(m.Payload, &f); err != nil {
 					s.Violate("C14: link %d %s: message at offset %d is not one well-formed JSON value (%v): %.120q", li, d, m.Off, err, m.Payload)
@@ -232,7 +256,7 @@ func checkWireIntegrity(s *vsched.Sched, w *World) {
 			var common map[uintptr]bool
 			nw := 0
 			for _, rec := range lk.WriteLog(d) {
-				if rec.Off < st.HandshakeLen {
+				if rec.Off < st.HandshakeLen || strings.HasPrefix(rec.Who, "zgarbage") {
 					continue
 				}
 				op := -1
